@@ -75,6 +75,7 @@ func parseReal(s string) parseOutcome {
 }
 
 type parseLine struct {
+	M  []string  `json:"m"` // macro tokens (token-level enumeration): rendered to text by the harness
 	S  []int     `json:"s"`
 	Ok bool      `json:"ok"`
 	E  *vx.QTree `json:"e"`
@@ -112,6 +113,27 @@ func replayParse(args []string) error {
 		rep.Behaviours++
 		rep.Steps++
 		s := vx.StringOf(ln.S)
+		if ln.M != nil {
+			// C is a = "x", P is b = $2, F is c (the values MC_QL's Expand uses); spacing varies
+			var parts []string
+			for _, m := range ln.M {
+				switch m {
+				case "C":
+					parts = append(parts, "a=\"x\"")
+				case "P":
+					parts = append(parts, "b = $2")
+				case "F":
+					parts = append(parts, "c")
+				default:
+					parts = append(parts, m)
+				}
+			}
+			s = strings.Join(parts, []string{" ", "", "  ", "\t"}[rep.Behaviours%4])
+			if rep.Behaviours%4 == 1 {
+				s = strings.Join(parts, " ") // identifiers would merge without a separator
+			}
+			ln.S = vx.BytesOf(s)
+		}
 		got := parseReal(s)
 		bad := ""
 		switch {
